@@ -20,7 +20,7 @@ Three legs:
 Renders run with debug info off; the lookups of the error-reporting path with debug info on are the
 known finding `debug-info-lookups`, which is re-observed and kept apart from everything else.
 """
-import os, sys, collections, copy
+import os, sys, collections, copy, re
 sys.path.insert(0, os.path.dirname(os.path.dirname(os.path.abspath(__file__))))
 from vlib import *
 import proggen, langenc
@@ -183,6 +183,39 @@ HOLES = [
     ("block-in-for-else-self-after", "{% for V in [] %}a{% else %}{% with V = 2 %}{% block b %}{{ E }}{% endblock %}{% endwith %}{% endfor %}{{ self.b() }}"),
     ("block-in-for-self-in-set", "{% for V in l %}{% block b %}{{ E }}{% endblock %}{% endfor %}{% set z = self.b() %}"),
     ("block-in-for-self-in-filter-arg", "{% for V in l %}{% block b %}{{ E }}{% endblock %}{% endfor %}{{ 'a'|default(self.b()) }}"),
+    # block tags at every statement position (where the parser refuses them the template does not compile: vacuous)
+    ("block-in-callblock-param-self-after", "{% macro m() %}[{{ caller(1) }}]{% endmacro %}{% call(V) m() %}{% block b %}{{ E }}{% endblock %}{% endcall %}{{ self.b() }}"),
+    ("block-in-callblock-set-self-after", "{% macro m() %}[{{ caller() }}]{% endmacro %}{% call m() %}{% set V = 1 %}{% block b %}{{ E }}{% endblock %}{% endcall %}{{ self.b() }}"),
+    ("block-in-callblock-in-for-self-after", "{% macro m() %}[{{ caller() }}]{% endmacro %}{% for V in l %}{% call m() %}{% block b %}{{ E }}{% endblock %}{% endcall %}{% endfor %}{{ self.b() }}"),
+    ("block-in-callblock-self-before", "{{ self.b() }}{% macro m() %}[{{ caller(1) }}]{% endmacro %}{% call(V) m() %}{% block b %}{{ E }}{% endblock %}{% endcall %}"),
+    ("block-in-macro-param-self-after", "{% macro m(V) %}{% block b %}{{ E }}{% endblock %}{% endmacro %}{{ m(1) }}{{ self.b() }}"),
+    ("block-in-macro-set-self-after", "{% macro m() %}{% set V = 1 %}{% block b %}{{ E }}{% endblock %}{% endmacro %}{{ m() }}{{ self.b() }}"),
+    ("block-in-macro-in-for-self-after", "{% for V in l %}{% macro m() %}{% block b %}{{ E }}{% endblock %}{% endmacro %}{{ m() }}{% endfor %}{{ self.b() }}"),
+    ("block-in-block-set-self-after", "{% block a %}{% set V = 1 %}{% block b %}{{ E }}{% endblock %}{% endblock %}{{ self.b() }}"),
+    ("block-in-block-in-for-self-after", "{% for V in l %}{% block a %}{% block b %}{{ E }}{% endblock %}{% endblock %}{% endfor %}{{ self.b() }}"),
+    ("block-in-if-in-for-self-after", "{% for V in l %}{% if t %}{% block b %}{{ E }}{% endblock %}{% endif %}{% endfor %}{{ self.b() }}"),
+    ("block-in-else-in-for-self-after", "{% for V in l %}{% if f %}a{% else %}{% block b %}{{ E }}{% endblock %}{% endif %}{% endfor %}{{ self.b() }}"),
+    ("block-in-elif-in-with-self-after", "{% with V = 1 %}{% if f %}a{% elif t %}{% block b %}{{ E }}{% endblock %}{% endif %}{% endwith %}{{ self.b() }}"),
+    ("block-in-filterblock-in-for-self-after", "{% for V in l %}{% filter upper %}{% block b %}{{ E }}{% endblock %}{% endfilter %}{% endfor %}{{ self.b() }}"),
+    ("block-in-autoescape-in-with-self-after", "{% with V = 1 %}{% autoescape false %}{% block b %}{{ E }}{% endblock %}{% endautoescape %}{% endwith %}{{ self.b() }}"),
+    ("block-in-for-else-self-after", "{% for y in [] %}a{% else %}{% set V = 1 %}{% block b %}{{ E }}{% endblock %}{% endfor %}{{ self.b() }}"),
+    ("block-in-for-filtered-self-after", "{% for V in l if t %}{% block b %}{{ E }}{% endblock %}{% endfor %}{{ self.b() }}"),
+    ("block-in-for-pair-self-after", "{% for y, V in [[1, 2]] %}{% block b %}{{ E }}{% endblock %}{% endfor %}{{ self.b() }}"),
+    ("block-in-with-self-in-do", "{% with V = 1 %}{% block b %}{{ E }}{% endblock %}{% endwith %}{% do self.b() %}"),
+    ("block-in-with-self-in-callblock-call", "{% with V = 1 %}{% block b %}{{ E }}{% endblock %}{% endwith %}{% macro m(a) %}{{ caller() }}{% endmacro %}{% call m(self.b()) %}c{% endcall %}"),
+    # a name bound to an UNDEFINED value, then a macro that reads it is declared and called (the closure must
+    # hold the name, or the macro body falls through to the context)
+    ("macro-body-set-silent-undefined-before", "{% set V = 1 if f %}{% macro m() %}[{{ E }}]{% endmacro %}{{ m() }}"),
+    ("macro-body-set-undefined-var-before", "{% set V = nosuch %}{% macro m() %}[{{ E }}]{% endmacro %}{{ m() }}"),
+    ("macro-body-set-missing-attr-before", "{% set V = d.missing %}{% macro m() %}[{{ E }}]{% endmacro %}{{ m() }}"),
+    ("macro-body-with-undefined-before", "{% with V = d.missing %}{% macro m() %}[{{ E }}]{% endmacro %}{{ m() }}{% endwith %}"),
+    ("macro-body-for-undefined-item", "{% for V in [d.missing] %}{% macro m() %}[{{ E }}]{% endmacro %}{{ m() }}{% endfor %}"),
+    ("macro-in-macro-unpassed-arg", "{% macro o(V) %}{% macro m() %}<{{ E }}>{% endmacro %}{{ m() }}{% endmacro %}{{ o() }}"),
+    ("macro-in-macro-undefined-default", "{% macro o(V=d.missing) %}{% macro m() %}<{{ E }}>{% endmacro %}{{ m() }}{% endmacro %}{{ o() }}"),
+    ("callblock-body-set-undefined-before", "{% macro m() %}{{ caller() }}{% endmacro %}{% set V = 1 if f %}{% call m() %}{{ E }}{% endcall %}"),
+    ("callblock-body-unpassed-param", "{% macro m() %}{{ caller() }}{% endmacro %}{% call(V) m() %}{% macro i() %}{{ E }}{% endmacro %}{{ i() }}{% endcall %}"),
+    ("macro-body-setblock-undefined-in-with", "{% with V = nosuch %}{% macro m() %}{% set z %}{{ E }}{% endset %}{{ z }}{% endmacro %}{{ m() }}{% endwith %}"),
+    ("macro-called-in-loop-set-undefined", "{% set V = d.missing %}{% macro m() %}{{ E }}{% endmacro %}{% for y in l %}{{ m() }}{% endfor %}"),
     ("raw-neighbour", "{% raw %}{{ V }}{% endraw %}{{ E }}"),
 ]
 # positions that need a call expression
@@ -440,9 +473,10 @@ def has_loop_control(st):
     return any(has_loop_control(x) for b in proggen._sub_bodies(st) for x in b) or (st[0] == "block" and any(has_loop_control(x) for x in st[2]))
 
 
-def block_mutation(body, rng):
-    """Engine-side only: wraps statements (at any depth outside macros and call blocks) into named blocks and
-    renders these blocks once more through self.name() at places outside any block."""
+def block_mutation(body, rng, deep=False):
+    """Engine-side only: wraps statements (at any depth; with deep also inside macro and call-block bodies, which
+    the parser may refuse - then the program does not compile and says nothing) into named blocks and renders
+    these blocks once more through self.name() at places outside any block."""
     names = []
 
     def wrap(b, in_block):
@@ -453,6 +487,8 @@ def block_mutation(body, rng):
             elif t == "for": st = ("for", st[1], st[2], st[3], wrap(st[4], in_block), None if st[5] is None else wrap(st[5], in_block), st[6])
             elif t in ("with", "filterblock", "autoescape"): st = (t, st[1], wrap(st[2], in_block))
             elif t == "setblock": st = ("setblock", st[1], wrap(st[2], in_block), st[3])
+            elif t == "macro" and deep: st = ("macro", st[1], st[2], st[3], wrap(st[4], in_block))
+            elif t == "callblock" and deep: st = ("callblock", st[1], st[2], wrap(st[3], in_block))
             if len(names) < 4 and not has_loop_control(st) and st[0] not in ("macro", "callblock") and rng.chance(1, 5):
                 nm = "blk%d" % len(names)
                 names.append(nm)
@@ -477,6 +513,66 @@ def block_mutation(body, rng):
         return out
     body = wrap(body, False)
     return call(body, 0) if names else None
+
+
+# ------------------------------------------------------------------------------------------------
+# operation sequences: a template keeps the configuration it was loaded with
+# ------------------------------------------------------------------------------------------------
+SYNTAXES = {
+    "default": None,
+    "angle": {"block": ["<%", "%>"], "var": ["<<", ">>"], "comment": ["<#", "#>"]},
+    "latex": {"block": ["\\BLOCK{", "}"], "var": ["\\VAR{", "}"], "comment": ["\\#{", "}"]},
+    "erb": {"block": ["[%", "%]"], "var": ["[[", "]]"], "comment": ["[#", "#]"]},
+}
+WS = [{}, {"trim_blocks": True, "lstrip_blocks": True}, {"keep_trailing_newline": True}, {"lstrip_blocks": True}]
+_DELIM = re.compile(r"\{%|%\}|\{\{|\}\}")
+
+
+def resyntax(src, syn):
+    """default-syntax source -> the same template in another delimiter set"""
+    cfg = SYNTAXES[syn]
+    if cfg is None:
+        return src
+    m = {"{%": cfg["block"][0], "%}": cfg["block"][1], "{{": cfg["var"][0], "}}": cfg["var"][1]}
+    return _DELIM.sub(lambda x: m[x.group(0)], src)
+
+
+def syntax_op(syn):
+    cfg = SYNTAXES[syn]
+    return {"op": "syntax_default"} if cfg is None else dict(cfg, op="syntax")
+
+
+OTHER = "{% if user %}Hello {{ user }}!{% endif %}{% for item in items %}{{ item }}{{ sep }}{% endfor %}{{ footer }}"
+
+
+def history_for(src, a, b, ws1, ws2, owned):
+    """load under (a, ws1); reconfigure to (b, ws2) and load something else; analyse; go back; analyse.
+    -> (ops, indices of the check results that concern the first template / the second one)"""
+    ops = [syntax_op(a), dict(WS[ws1], op="ws"), {"op": "add", "name": "t1", "src": resyntax(src, a), "owned": owned}, {"op": "check", "name": "t1"},
+           syntax_op(b), dict(WS[ws2], op="ws"), {"op": "add", "name": "t2", "src": resyntax(OTHER, b), "owned": not owned},
+           {"op": "check", "name": "t1"}, {"op": "check", "name": "t2"},
+           {"op": "check_str", "src": resyntax(src, b)}, {"op": "check_expr", "src": "[user, items[0].name, footer|default(sep)]"},
+           syntax_op(a), dict(WS[ws1], op="ws"), {"op": "check", "name": "t1"}, {"op": "check", "name": "t2"}]
+    return ops
+
+
+def judge_history(res):
+    """-> list of (what, detail) problems of one history response"""
+    out = []
+    if "results" not in res:
+        return out
+    rs = res["results"]
+    glob = res.get("globals", [])
+    if any("add_err" in r or "config_err" in r or "load_err" in r for r in rs) or len(rs) != 7:
+        return None                                   # something did not compile under its own configuration: vacuous
+    for k, r in enumerate(rs):
+        mm = missing_of(dict(r, globals=glob))
+        if mm and (mm[0] or mm[1]):
+            out.append(("a stored template / expression reads a variable its report omits (check #%d)" % k, {"asked": r["asked"], "reported": r["flat"], "missing": mm[0], "missing_nested": mm[1]}))
+    for i, j in ((0, 1), (0, 5), (2, 6)):
+        if rs[i]["flat"] != rs[j]["flat"] or rs[i]["nested"] != rs[j]["nested"]:
+            out.append(("the report of a stored template changed when the environment was reconfigured (check #%d vs #%d)" % (i, j), {"before": rs[i]["flat"], "after": rs[j]["flat"]}))
+    return out
 
 
 def gen_programs(chk, n):
@@ -615,6 +711,21 @@ def main():
 
     if chk.replay:
         rp = json.load(open(chk.replay))["replay"]
+        if "history" in rp:
+            bad = False
+            for rel in (False, True):
+                res = run_c18([{"history": rp["history"], "ctx": rp.get("context", {})}], release=rel)[0]
+                j = judge_history(res)
+                if j:
+                    bad = True
+                    chk.violation("undeclared_variables of a stored template after reconfiguring the environment: " + j[0][0],
+                                  dict(j[0][1], history=rp["history"], context=rp.get("context", {}), profile="release" if rel else "debug"))
+                    break
+            chk.cov["evaluations"] = 2
+            chk.cov["distinct_nontrivial"] = 1 if bad else 0
+            chk.cov["rule"] = "replay of one recorded operation sequence"
+            chk.cov["samples"] = [rp]
+            chk.finish()
         if "expr" in rp:
             rq = {"expr": rp["expr"], "ctx": rp.get("context", {}), "debug": False}
         else:
@@ -771,6 +882,32 @@ def main():
                         dbg_only.append(i)
                     else:
                         direct.append((i, rel, md))          # debug info only matters on the error path
+    # ---------------- leg 2c: operation sequences (load, reconfigure, analyse) -------------------------
+    hsrcs = [(c[4], c[5]) for c in cc if c[1] == "var" and c[2] == "x" and c[3] == "pairs"]
+    hsrcs += [(preqs[i]["tpl"], progs[i][1]) for i in range(min(len(progs), 4000 if chk.thorough else 250)) if "[" not in preqs[i]["tpl"] or True]
+    pairs_ab = [("default", "angle"), ("angle", "default"), ("default", "latex"), ("erb", "angle"), ("default", "default"), ("latex", "default")]
+    hreqs = []
+    for k, (src, ctx) in enumerate(hsrcs):
+        for a_, b_ in (pairs_ab if k < 150 else [pairs_ab[k % len(pairs_ab)]]):
+            ws1, ws2 = chk.rng.below(len(WS)), chk.rng.below(len(WS))
+            c2 = dict(ctx); c2.update({"user": "Peter", "items": [{"name": 1}], "sep": ","})
+            hreqs.append({"history": history_for(src, a_, b_, ws1, ws2, chk.rng.chance(1, 2)), "ctx": c2, "syntaxes": [a_, b_]})
+    hbad = []
+    hvac = 0
+    for rel in profiles:
+        hres = run_c18(hreqs, release=rel)
+        n_eval += len(hres)
+        for rq, res in zip(hreqs, hres):
+            j = judge_history(res)
+            if j is None:
+                hvac += 1 if not rel else 0
+                continue
+            if not rel and any(r.get("asked") for r in res["results"][:2]):
+                nontriv.add("history:" + json.dumps(rq["history"][2]) + json.dumps(rq["syntaxes"]))
+            for what, det in j:
+                hbad.append((rq, what, det, rel))
+    chk.cov["history_leg"] = {"histories": len(hreqs), "vacuous(some source does not compile under its configuration)": hvac, "problems": len(hbad),
+                              "sample": hreqs[0]["history"] if hreqs else None}
     # ---------------- leg 2b: the same programs with blocks and self.name() calls (engine only) ------------
     nb = len(progs) if chk.thorough else min(len(progs), 2000)
     bprogs = []
@@ -778,6 +915,10 @@ def main():
         bb = block_mutation(body, chk.rng)
         if bb is not None:
             bprogs.append((bb, ctx))
+        if any(st[0] in ("macro", "callblock") for st in body) or chk.rng.chance(1, 8):
+            bb = block_mutation(body, chk.rng, deep=True)
+            if bb is not None:
+                bprogs.append((bb, ctx))
     breqs = [req_t(proggen.body_src(b), ctx) for b, ctx in bprogs]
     bdirect = []
     for rel in (False, True):
@@ -850,6 +991,14 @@ def main():
         chk.violation("undeclared_variables omits a variable the render reads (generated program)",
                       {"template": src, "context": ctx, "asked": r["asked"], "reported": r["flat"], "reported_nested": r["nested"],
                        "missing": m2[0], "missing_nested": m2[1], "profile": "release" if rel else "debug", "ast": repr(sb)})
+    seenh = set()
+    for rq, what, det, rel in hbad:
+        key = (what.split("(")[0], tuple(rq["syntaxes"]))
+        if key in seenh or len(seenh) >= 6:
+            continue
+        seenh.add(key)
+        chk.violation("undeclared_variables of a stored template after reconfiguring the environment: " + what,
+                      dict(det, history=rq["history"], context=rq["ctx"], syntaxes=rq["syntaxes"], profile="release" if rel else "debug"))
     seenb = set()
     for i, rel, mm in bdirect[:40]:
         if len(seenb) >= 4:
